@@ -31,6 +31,9 @@ const (
 
 const nWorkersB = 16
 
+// values up to this length must fit any server's request-header buffer (fasthttp's default is 4096 for the whole head)
+const wireValueMax = 2048
+
 func totalAlloc() uint64 {
 	var m runtime.MemStats
 	runtime.ReadMemStats(&m)
@@ -59,7 +62,8 @@ type appB struct {
 	fctx    fasthttp.RequestCtx
 	tmpl    fasthttp.Request
 	rich    []msg
-	richReq []byte
+	richVal []byte
+	probes  []msg
 }
 
 func newAppB() *appB {
@@ -69,16 +73,16 @@ func newAppB() *appB {
 		if a.measure {
 			a.entry = totalAlloc()
 		}
-		if a.onEntry != nil {
+		if a.onEntry != nil && a.measure {
 			a.onEntry()
 		}
-		a.got = observe(c, nil)
+		a.got = observe(c, a.probes)
 		return c.SendString("ok")
 	})
 	a.h = a.app.Handler()
 	a.srv = a.app.Server()
 	a.rich = richSet()
-	a.richReq = wireReqB(encMsgs(a.rich))
+	a.richVal = theTransport.enc(encMsgs(a.rich))
 	// request-header seam: a request parsed from the wire (so RawHeaders() is populated and mentions
 	// the cookie name), whose cookie is then set on the header object.
 	raw := "GET /t HTTP/1.1\r\nHost: " + host + "\r\nX-Seam: " + fiber.FlashCookieName + "\r\n\r\n"
@@ -189,21 +193,31 @@ func trimSeen(s seen) seen {
 // It returns true when the app must be rebuilt (panic, or the context's slice grew).
 func (a *appB) judge(cs caseB, seam string, l *core.Local, sample bool) (rebuild bool) {
 	// 1. rich valid cookie on the same app, on the wire
-	rr := a.send("wire", encMsgs(a.rich), false)
+	tr := theTransport
+	rr := a.send("wire", a.richVal, false)
 	if rr.panicked != nil || !rr.s.Ran || !eqMsgs(rr.s.Msgs, flashOf(a.rich)) || !eqMsgs(rr.s.Olds, oldOf(a.rich)) {
 		l.Violate("b/valid-15-message-cookie-misdecoded", "a canonical 15-message cookie without control bytes is not decoded exactly",
-			map[string]any{"cookie_hex": hexs(encMsgs(a.rich))}, map[string]any{"status": rr.status, "saw": trimSeen(rr.s), "panic": fmt.Sprint(rr.panicked)}, a.rich)
+			map[string]any{"cookie_hex": hexs(a.richVal), "transport": tr.Name}, map[string]any{"status": rr.status, "saw": trimSeen(rr.s), "panic": fmt.Sprint(rr.panicked)}, a.rich)
 		return true
 	}
-	// 2. the hostile value
-	r := a.send(seam, cs.Val, true)
+	// 2. the hostile value; for a well-formed one the by-key accessors are probed too
+	a.probes = nil
+	sent := cs.Val
+	if !cs.Raw {
+		sent = tr.enc(cs.Val)
+	}
+	if pre := refDecodeValue(tr, sent); pre.V == vAccept && len(pre.Msgs) <= 64 {
+		a.probes = firstByKey(pre.Msgs)
+	}
+	r := a.send(seam, sent, true)
+	a.probes = nil
 	l.Add("evaluations", 1)
 	l.Add("b_requests_"+seam, 1)
-	inVal := cs.Val
-	caseDoc := map[string]any{"part": "b", "seam": seam, "cookie_value_hex": hexs(cs.Val), "cookie_len": len(cs.Val), "form": cs.Desc,
+	inVal := sent
+	caseDoc := map[string]any{"part": "b", "seam": seam, "cookie_value_hex": hexs(sent), "cookie_len": len(sent), "form": cs.Desc, "transport": tr.Name,
 		"preceded_by": "valid 15-message cookie (keys STALE-KEY-nn, values STALE-VALUE-nn, levels 0x61.., alternating old-input flag)"}
 	if r.panicked != nil {
-		ref := refDecode(inVal)
+		ref := refDecodeValue(tr, inVal)
 		l.Outcome("b seam=" + seam + " panic")
 		l.Violate(fmt.Sprintf("b/panic ref=%s:%s seam=%s", ref.V, ref.Reason, seam), "decoding the cookie panics (fasthttp does not recover handler panics: the server process dies)",
 			caseDoc, fmt.Sprint(r.panicked), "no panic")
@@ -213,9 +227,11 @@ func (a *appB) judge(cs caseB, seam string, l *core.Local, sample bool) (rebuild
 		switch {
 		case !r.s.Ran:
 			// refused before the handler: nobody sees messages
-			ref := refDecode(inVal)
+			ref := refDecodeValue(tr, inVal)
 			l.Outcome(fmt.Sprintf("b seam=wire status=%d handler-not-run ref=%s", r.status, ref.V))
-			if transparent(inVal) && ref.V == vAccept {
+			if transparent(inVal) && ref.V == vAccept && len(inVal) > wireValueMax {
+				l.Add("unspecified_skipped", 1) // header-size limits of the server are outside the statement
+			} else if transparent(inVal) && ref.V == vAccept {
 				l.Violate("b/accepted-cookie-refused-on-the-wire", "a well-formed cookie made of cookie-octets/high bytes is answered without running the handler", caseDoc, r.status, ref.Msgs)
 			}
 			if ref.HasHeader {
@@ -235,13 +251,13 @@ func (a *appB) judge(cs caseB, seam string, l *core.Local, sample bool) (rebuild
 		l.Violate("b/harness-seam-value-differs", "the request-header seam did not deliver the value (harness problem)", caseDoc, fmt.Sprintf("%q", r.s.Cookie), nil)
 		return false
 	}
-	ref := refDecode(inVal)
+	ref := refDecodeValue(tr, inVal)
 	if ref.HasHeader {
 		l.Add("b_nontrivial", 1)
 	}
 	wantF, wantO := flashOf(ref.Msgs), oldOf(ref.Msgs)
-	exact := eqMsgs(r.s.Msgs, wantF) && eqMsgs(r.s.Olds, wantO)
-	none := len(r.s.Msgs)+len(r.s.Olds) == 0
+	exact := r.s.NMsgs == len(wantF) && r.s.NOlds == len(wantO) && eqMsgs(r.s.Msgs, wantF) && eqMsgs(r.s.Olds, wantO)
+	none := r.s.NMsgs+r.s.NOlds == 0
 	gotKind := "other"
 	switch {
 	case none:
@@ -252,48 +268,86 @@ func (a *appB) judge(cs caseB, seam string, l *core.Local, sample bool) (rebuild
 		gotKind = "stale-strings-of-previous-request"
 	case allZero(r.s):
 		gotKind = "zero-valued-messages"
+	case ref.V == vReject:
+		gotKind = "decoded-prefix"
 	}
 	l.Outcome(fmt.Sprintf("b seam=%s status=%d ref=%s got=%s", seam, r.status, ref.V, gotKind))
-	obs := map[string]any{"status": r.status, "saw": trimSeen(r.s), "messages_seen": len(r.s.Msgs), "old_inputs_seen": len(r.s.Olds), "alloc_before_handler": r.decAlloc}
+	obs := map[string]any{"status": r.status, "saw": trimSeen(r.s), "messages_seen": r.s.NMsgs, "old_inputs_seen": r.s.NOlds, "alloc_before_handler": r.decAlloc}
 	if sample {
 		l.Sample(map[string]any{"case": caseDoc, "reference": map[string]any{"verdict": ref.V.String(), "reason": ref.Reason, "decode": ref.Msgs}, "observed": obs})
 	}
 	// ---- oracle ----
+	caseDoc["reference_verdict"] = ref.V.String() + ":" + ref.Reason
+	obs["kind"] = gotKind
+	want := map[string]any{"messages": wantF, "old_inputs": wantO}
 	switch ref.V {
 	case vReject:
 		if !none {
-			if gotKind == "other" {
-				gotKind = "decoded-prefix"
-			}
-			l.Violate(fmt.Sprintf("b/rejected-cookie-yields-messages reason=%s seen=%s seam=%s", ref.Reason, gotKind, seam),
-				"a cookie value that is not a well-formed encoding yields messages", caseDoc, obs, "no messages (reference: "+ref.Reason+")")
+			l.Violate(fmt.Sprintf("b/malformed-cookie-yields-messages class=%s seam=%s", rejectClass(ref.Reason), seam),
+				"a cookie value that is not a well-formed encoding yields messages (zero-valued, decoded prefix, or data of the previous request)",
+				caseDoc, obs, "no messages (reference: "+ref.Reason+")")
 		}
-	case vAccept:
-		if !exact {
-			shape := "all-fields-present"
-			if ref.Absent {
-				shape = "some-fields-absent"
-			}
-			if gotKind == "other" {
-				gotKind = "level-or-flag-or-text-differs"
-			}
-			l.Violate(fmt.Sprintf("b/accepted-cookie-misdecoded shape=%s seen=%s seam=%s", shape, gotKind, seam),
-				"a well-formed cookie is not decoded to exactly its content (absent fields must read as zero values, never as data of an earlier request)",
-				caseDoc, obs, map[string]any{"messages": wantF, "old_inputs": wantO})
-		}
-	case vLenient:
-		if !exact && !none {
-			l.Violate(fmt.Sprintf("b/non-minimal-encoding-misdecoded seen=%s seam=%s", gotKind, seam),
-				"a well-formed, correctly typed, non-minimal encoding is neither refused nor decoded exactly", caseDoc, obs, map[string]any{"messages": wantF, "old_inputs": wantO, "or": "none"})
+	case vAccept, vLenient:
+		switch {
+		case exact && r.s.ProbeBad != "" && string(inVal) == string(sent):
+			l.Violate("b/message-by-key-disagrees seam="+seam, "Message(k)/OldInput(k) do not return the first message / old input of that key", caseDoc, r.s.ProbeBad, want)
+		case exact, none && ref.V == vLenient:
+		case ref.Absent && !none:
+			l.Violate("b/absent-field-reads-stale-data seam="+seam,
+				"an element that lacks some of the four fields shows data decoded for an earlier request instead of zero values",
+				caseDoc, obs, want)
+		case ref.V == vAccept:
+			l.Violate("b/well-formed-cookie-misdecoded seam="+seam, "a well-formed minimal encoding is not decoded to exactly its content", caseDoc, obs, want)
+		default:
+			want["or"] = "none"
+			l.Violate("b/non-minimal-encoding-misdecoded seam="+seam,
+				"a well-formed, correctly typed, non-minimal encoding is neither refused nor decoded exactly", caseDoc, obs, want)
 		}
 	default:
 		l.Add("unspecified_skipped", 1)
 	}
 	if lim := uint64(budgetA + budgetB*len(inVal)); r.decAlloc > lim {
-		l.Violate(fmt.Sprintf("b/alloc-over-budget announced=%s ref=%s seam=%s", sizeBucket(ref.Announced), ref.V, seam),
+		form := "fixarray"
+		if pl, _ := tr.dec(inVal); len(pl) > 0 && pl[0] == 0xdc {
+			form = "array16"
+		} else if len(pl) > 0 && pl[0] == 0xdd {
+			form = "array32"
+		}
+		l.Violate(fmt.Sprintf("b/alloc-over-budget header=%s seam=%s", form, seam),
 			"allocation before the handler runs exceeds A + B*len(cookie) (A=64KiB, B=1KiB/byte)", caseDoc, obs, fmt.Sprintf("<= %d bytes", lim))
 	}
 	return ref.HasHeader && ref.Announced > 15
+}
+
+// firstByKey lists, per (key, kind), the first message: what Message(k) / OldInput(k) must return.
+func firstByKey(ms []msg) []msg {
+	var out []msg
+	for _, m := range ms {
+		dup := false
+		for _, o := range out {
+			dup = dup || (o.Key == m.Key && o.Old == m.Old)
+		}
+		if !dup {
+			if m.Old {
+				m.Level = 0
+			}
+			out = append(out, m)
+		}
+	}
+	return out
+}
+
+// rejectClass groups the reference decoder's reasons by the kind of defect.
+func rejectClass(reason string) string {
+	switch {
+	case reason == "trailing-bytes":
+		return "trailing-bytes"
+	case strings.HasPrefix(reason, "array-announces-more"), strings.HasPrefix(reason, "truncated"):
+		return "truncated"
+	case reason == "empty-value", reason == "not-an-array":
+		return "not-an-array"
+	}
+	return "wrong-type"
 }
 
 // ---- case space of the workers ----
@@ -319,7 +373,7 @@ func bytesAt(i int) caseB {
 		v[k] = byte(i)
 		i >>= 8
 	}
-	return caseB{v, "all byte strings"}
+	return caseB{Val: v, Desc: "all byte strings (injected verbatim)", Raw: true}
 }
 
 func maxLenB(quick bool) int {
@@ -337,8 +391,8 @@ func runPartBWorker(r *core.Run) {
 	a := newAppB()
 	// warm-up so that pools and buffers exist before allocation is measured
 	for i := 0; i < 8; i++ {
-		a.send("wire", encMsgs(a.rich), false)
-		a.send("hdr", encMsgs(a.rich), false)
+		a.send("wire", a.richVal, false)
+		a.send("hdr", a.richVal, false)
 	}
 	base := a.send("wire", []byte("x"), true)
 	l.Add("b_baseline_alloc_wire_max", int64(base.decAlloc))
@@ -387,8 +441,10 @@ func runPartB(r *core.Run) map[string]any {
 	runSizeCases(r, scs)
 	return map[string]any{
 		"byte_strings_max_len": maxLenB(r.Quick()), "byte_strings": nb,
-		"grammar_headers": len(g.hs), "grammar_element_forms": len(g.e0), "grammar_element_sequences": len(g.seqs), "grammar_cases": g.size(),
+		"grammar_headers_small": len(g.hs), "grammar_headers_announcing_255_or_more": len(g.big), "grammar_element_forms": len(g.e0),
+		"grammar_element_sequences": len(g.seqs), "grammar_element_sequences_for_big_headers": len(g.bigSeqs), "grammar_cases": g.size(),
 		"seams":                 []string{"wire", "hdr"},
+		"cookie_transport":      theTransport.Name,
 		"hostile_size_cases":    len(scs),
 		"alloc_budget":          "64KiB + 1KiB*len(value), measured from request start to handler entry",
 		"size_child_vmem_limit": fmt.Sprintf("%d KiB (ulimit -v)", childVMemKiB),
@@ -400,8 +456,12 @@ const childVMemKiB = 2 << 20 // 2 GiB of address space per size child
 // runSizeCases runs each hostile-size case in its own child process under an address-space limit,
 // so that a runtime "out of memory" death is observed as a violation of the case.
 func runSizeCases(r *core.Run, scs []sizeCase) {
-	dir := filepath.Join(core.VerifDir, ".build", "parts", r.Prop)
-	_ = os.MkdirAll(dir, 0o755)
+	_ = os.MkdirAll(filepath.Join(core.VerifDir, ".build", "parts"), 0o755)
+	dir, derr := os.MkdirTemp(filepath.Join(core.VerifDir, ".build", "parts"), r.Prop+"-size-")
+	if derr != nil {
+		core.Fatal("temp dir for size children: %v", derr)
+	}
+	defer os.RemoveAll(dir)
 	sem := make(chan struct{}, 4)
 	var wg sync.WaitGroup
 	type result struct {
@@ -410,6 +470,7 @@ func runSizeCases(r *core.Run, scs []sizeCase) {
 		stage  string
 		stderr string
 		err    string
+		alloc  string
 	}
 	results := make([]result, len(scs))
 	for i := range scs {
@@ -430,6 +491,9 @@ func runSizeCases(r *core.Run, scs []sizeCase) {
 			for _, ln := range strings.Split(so.String(), "\n") {
 				if strings.HasPrefix(ln, "STAGE ") {
 					res.stage = strings.TrimPrefix(ln, "STAGE ")
+				}
+				if strings.HasPrefix(ln, "ALLOC ") {
+					res.alloc = strings.TrimPrefix(ln, "ALLOC ")
 				}
 			}
 			b, rerr := os.ReadFile(out)
@@ -466,8 +530,8 @@ func runSizeCases(r *core.Run, scs []sizeCase) {
 		r.Outcome(fmt.Sprintf("b size seam=%s process-died stage=%s", sc.Seam, res.stage))
 		r.Violate(fmt.Sprintf("b/process-death announced=%s stage=%s seam=%s", sizeBucket(sc.N), res.stage, sc.Seam),
 			"a few-byte cookie kills the server process (unrecoverable runtime error while decoding / exposing the announced elements) under a 2 GiB address-space limit",
-			map[string]any{"part": "b-size", "seam": sc.Seam, "cookie_value_hex": hexs(sc.value()), "cookie_len": len(sc.value()), "announced_elements": sc.N, "elements_present": sc.Elem},
-			map[string]any{"exit": res.err, "stderr_head": res.stderr, "last_stage": res.stage}, "process survives; no messages; allocation <= 64KiB + 1KiB*len")
+			map[string]any{"part": "b-size", "seam": sc.Seam, "cookie_value_hex": hexs(theTransport.enc(sc.value())), "cookie_len": len(theTransport.enc(sc.value())), "transport": theTransport.Name, "announced_elements": sc.N, "elements_present": sc.Elem},
+			map[string]any{"exit": res.err, "stderr_head": res.stderr, "last_stage": res.stage, "allocated_before_handler": res.alloc}, "process survives; no messages; allocation <= 64KiB + 1KiB*len")
 	}
 }
 
@@ -481,15 +545,15 @@ func runSizeChild(r *core.Run, idx int) {
 	l := core.NewLocal()
 	a := newAppB()
 	for i := 0; i < 4; i++ {
-		a.send("wire", encMsgs(a.rich), false)
-		a.send("hdr", encMsgs(a.rich), false)
+		a.send("wire", a.richVal, false)
+		a.send("hdr", a.richVal, false)
 	}
 	fmt.Println("STAGE decoding")
 	a.onEntry = func() {
-		fmt.Printf("STAGE handler-reading-messages (allocated-before-handler=%d)\n", a.entry-a.before)
+		fmt.Printf("ALLOC %d\nSTAGE handler-reading-messages\n", a.entry-a.before)
 	}
 	val := sc.value()
-	cs := caseB{val, fmt.Sprintf("array32(%d) + %s", sc.N, sc.Elem)}
+	cs := caseB{Val: val, Desc: fmt.Sprintf("array32(%d) + %s", sc.N, sc.Elem)}
 	a.judge(cs, sc.Seam, l, false)
 	fmt.Println("STAGE done")
 	r.Merge(l.P)
